@@ -63,6 +63,47 @@ def loadhist(ctx, vecs, label, aspects, devs, extra=()):
     return rep
 
 
+TRACE_CFG = """SPECIFICATION TSpec
+CONSTANTS KnownDev = {known}
+INVARIANTS Judge AtomicObserved
+POSTCONDITION Done
+CHECK_DEADLOCK FALSE
+"""
+
+
+def record_and_judge(ctx, devs, n, label="random-histories"):
+    """Direction B: random well-formed definition sets, random arrangements and injected failures executed on
+    real roots; the recorded histories are validated against Loader.tla by LoaderTrace.tla."""
+    out = os.path.join(ctx.scratch, "loads.ndjson")
+    rep = vlib.run_harness_json(ctx, "schema", ["record", "-n", str(n), "-out", out], timeout=3000)
+    ctx.evaluations += rep["evaluations"]
+    for h in rep.get("nontrivial_hashes") or []:
+        ctx.nontrivial.add(h)
+    for smp in rep.get("samples") or []:
+        ctx.add_sample({"from": label, "case": smp}, limit=6)
+    res = vlib.run_tlc(ctx, "LoaderTrace", TRACE_CFG.format(known=tlaset(sorted(devs))), extra_files=[out], workers=1, timeout=3000,
+                       tag="@@VER", xss="64m")
+    if res.violated == "AtomicObserved":
+        ctx.violations.append({"from": label, "what": "a recorded load returned an error but the schema read back afterwards differs from the one before (TLC: AtomicObserved)",
+                               "case": res.lines[-40:]})
+        return
+    vlib.require_clean(res, "LoaderTrace")
+    recs = [json.loads(l) for l in open(out)]
+    if len(res.vecs) != len(recs) or any(m.startswith('"@@INCOMPLETE') for m in res.marks):
+        raise vlib.MachineryError("LoaderTrace judged %d of %d records" % (len(res.vecs), len(recs)))
+    ctx.traces += sum(1 for r in recs if r["r"] == "reset")
+    for v in res.vecs:
+        if v["ok"]:
+            continue
+        rec = recs[v["i"] - 1]
+        if v.get("known"):
+            note_known(ctx, "+".join(v.get("kdevs") or ["K"]), devs)
+            continue
+        ctx.violations.append({"from": label, "what": "recorded load is not explained by Loader.tla: real ok=%s, model ok=%s (%s %s), same schema=%s"
+                               % (rec["ok"], v.get("modelOk"), v.get("why"), v.get("off"), v.get("sameSchema")),
+                               "case": {"document": rec["doc"], "record": v["i"]}})
+
+
 LOADER_CFG = """SPECIFICATION LSpec
 CONSTANTS MaxLoads = {n}
   PrefixIds = {prefixes}
@@ -89,6 +130,7 @@ def run_c14(ctx):
         res = vlib.run_tlc(ctx, "MCLoader", LOADER_CFG.format(n=k, prefixes=tlaset(prefixes), known=tlaset(sorted(devs))), timeout=3400, xss="64m")
         vlib.require_clean(res, "MCLoader")
         loadhist(ctx, res.vecs, "histories-%d-%s" % (k, "".join(prefixes)), {"verdict", "atomic", "schema"}, devs)
+    record_and_judge(ctx, devs, 400 if ctx.tier == "quick" else 6000)
     ctx.exhaustive = True
     ctx.rule = ("every history of %d loads over the %d documents of spec/LoadUniverse.tla (12 valid ones incl. extend and schema blocks, 15 failing ones: "
                 "syntax error, reader failure, undefined reference, duplicate, failed extension of each kind, validation failure - each after valid content) "
@@ -109,6 +151,7 @@ def run_c16(ctx):
     vlib.require_clean(res, "MCArrange")
     vecs = res.vecs
     loadhist(ctx, vecs, "arrangements", {"verdict", "atomic", "schema"}, devs)
+    record_and_judge(ctx, devs, 300 if ctx.tier == "quick" else 4000)
     ctx.exhaustive = ctx.tier == "thorough"
     ctx.rule = ("for each of 8 definition sets (6 valid, 2 invalid; all kinds, directive uses with and without default arguments, a schema block): every "
                 "permutation x every cut into up to three successive loads x every move of a last member into an extend block, restricted to arrangements "
@@ -130,6 +173,7 @@ def run_c13(ctx):
     res = vlib.run_tlc(ctx, "MCRules", RULES_CFG.format(known=tlaset(sorted(devs)), intro="FALSE"), timeout=3400, xss="64m")
     vlib.require_clean(res, "MCRules")
     rep = loadhist(ctx, res.vecs, "mutations", {"verdict", "offender", "schema"}, devs, extra=["-offender"])
+    record_and_judge(ctx, devs, 300 if ctx.tier == "quick" else 4000)
     muts = sorted({v["tag"].split(":", 1)[1] for v in res.vecs})
     ctx.extra["mutation_kinds"] = muts
     ctx.exhaustive = True
